@@ -130,7 +130,7 @@ def run(tw, tier, seed, only=None):
             samples.append([sorted(g.edges(data="order")) for g in graphs][:3])
         if len(fails) > 20:
             break
-    return {"cases": cases, "nontrivial": nontriv, "failures": fails[:20], "samples": samples, "exhaustive": False,
+    return {"cases": cases, "nontrivial": nontriv, "failures": fails, "samples": samples, "exhaustive": False,
             "evaluations": tw.evaluations,
             "bound": "%d random multisets of <= %d graphs (<= 4 atoms, 2 elements, 2 charges, 2 orders) with relabelled copies and one-edit near-misses; "
                      "attribute on/off, batch sizes 1..3, shuffled order, incremental lib_check" % (cases, 7 if tier == "quick" else 12),
